@@ -9,10 +9,16 @@ pid, src = sys.argv[1], sys.argv[2]
 name = sys.argv[3] if len(sys.argv) > 3 else pid + "-a"
 dst = os.path.join(ROOT, "seeded", name)
 os.makedirs(dst, exist_ok=True)
-for f in ("patch.diff", "demo_test.go", "meta.json"):
-    shutil.copy(os.path.join(src, f), os.path.join(dst, f))
+recheck = os.path.abspath(src) == os.path.abspath(dst)   # re-run the checks of an already stored seed
+if not recheck:
+    for f in ("patch.diff", "demo_test.go", "meta.json"):
+        shutil.copy(os.path.join(src, f), os.path.join(dst, f))
 meta = json.load(open(os.path.join(dst, "meta.json")))
-conf = subprocess.run([os.path.join(ROOT, "scripts/seeded_confirm.sh"), name, dst], stdout=subprocess.PIPE, stderr=subprocess.STDOUT, text=True).stdout
+if recheck and meta.get("confirmed_by_maintainer_of_verif"):
+    meta.setdefault("earlier_check_results", []).append({"checks_run": meta.get("checks_run"), "detected_by": meta.get("detected_by")})
+    conf = "\n".join(meta.get("confirmation_log", [])) + "\nCONFIRMED " + name
+else:
+  conf = subprocess.run([os.path.join(ROOT, "scripts/seeded_confirm.sh"), name, dst], stdout=subprocess.PIPE, stderr=subprocess.STDOUT, text=True).stdout
 confirmed = "CONFIRMED " + name in conf
 meta["confirmed_by_maintainer_of_verif"] = confirmed
 meta["confirmation_log"] = conf.strip().splitlines()[-3:]
